@@ -143,6 +143,7 @@ type IdP struct {
 	AuthReqs  []*AuthReq
 	ctr       int
 	curTR     *TokenReq
+	Rotations int
 	JWKSHits  int
 	DiscHits  int
 	// JWKSFail makes the JWKS endpoint fail (500) while > 0.
